@@ -430,8 +430,8 @@ def h_string_number(I, job):
         either = z3.And(V == (1 << 63) - 1, not tail and nd > 0)          # INT64_MAX cannot be told from an overflow through strtoll
     else:
         minus_one = neg and nd == 1 and not tail
-        ok = z3.And(V >= 0, V <= (1 << 32) - 1, not neg and not tail and nd > 0) if not minus_one else (V == -1)
-        either = z3.BoolVal(False)
+        ok = z3.And(V >= 0, V <= (1 << 32) - 2, not neg and not tail and nd > 0) if not minus_one else (V == -1)
+        either = z3.And(V == (1 << 32) - 1, not neg and not tail and nd > 0)       # the pinned test suite requires 4294967295 to be rejected here (the PBF and OPL readers accept it): either verdict
     if rc == 0:
         I.obligation(z3.Or(ok, either), 'accepts-invalid', 'a number outside the range of the type (or with trailing characters) is accepted')
         v = I.load(out, i64); sv = I.sterm(v, 64) if isinstance(v, Sym) else z3.IntVal(v - (1 << 64) if v >> 63 else v)
